@@ -513,9 +513,13 @@ def _resize_discr(discr, newshp, offset, discr_kwargs):
             if off is None:
                 num_r = n_diff // 2
                 num_l = n_diff - num_r
-            else:
+            elif n_diff >= 0:
                 num_r = n_diff - off
                 num_l = off
+            else:
+                # Cells are removed: `off` on the left, the rest on the right
+                num_r = n_diff + off
+                num_l = -off
         else:
             num_l, num_r = 0, 0
 
